@@ -107,6 +107,25 @@ class _SomeText(str):
 SOME_TEXT = _SomeText('\0some text')
 
 
+class _Learnt:
+    """What a test on a plain name said about it: truthy (so not None,
+    not empty) or falsy (None, empty, 0 ...)."""
+    def __init__(self, truth):
+        self.truth = truth
+
+    def __bool__(self):
+        return self.truth
+
+    def __repr__(self):
+        return 'truthy' if self.truth else 'falsy'
+
+    def __lt__(self, other):
+        return repr(self) < repr(other)
+
+
+TRUTHY, FALSY = _Learnt(True), _Learnt(False)
+
+
 def _some_text(v):
     """Is v a string built around literal text (so never empty)?"""
     import re as _re
@@ -546,7 +565,35 @@ class CFG:
         a = root.args
         for x in a.posonlyargs + a.args + a.kwonlyargs:
             params.add(x.arg)
-        self._flag_cache = consts - banned
+        # names tested on their own (`if xs:` ... `if not xs:`): what one
+        # test learnt holds at the next one while nothing re-binds or
+        # mutates the name in between
+        mutated = set()
+        for n in ast.walk(root):
+            if isinstance(n, ast.Call) and isinstance(n.func, ast.Attribute) \
+                    and isinstance(n.func.value, ast.Name) and \
+                    n.func.attr in ('append', 'extend', 'insert', 'pop',
+                                    'remove', 'clear', 'add', 'discard',
+                                    'update', 'setdefault', 'popitem',
+                                    'appendleft', 'popleft'):
+                mutated.add(n.func.value.id)
+            elif isinstance(n, (ast.Subscript, ast.Attribute)) and \
+                    isinstance(n.ctx, (ast.Store, ast.Del)) and \
+                    isinstance(n.value, ast.Name):
+                mutated.add(n.value.id)
+            elif isinstance(n, ast.AugAssign) and \
+                    isinstance(n.target, ast.Name):
+                mutated.add(n.target.id)
+        tested = set()
+        for n in self.nodes.values():
+            if n.kind == 'test':
+                t = n.ast
+                while isinstance(t, ast.UnaryOp) and isinstance(t.op, ast.Not):
+                    t = t.operand
+                if isinstance(t, ast.Name):
+                    tested.add(t.id)
+        self._learn = tested - banned - mutated
+        self._flag_cache = (consts | self._learn) - banned
         return self._flag_cache
 
     def _bindings(self, n, flags, env=None):
@@ -635,6 +682,12 @@ class CFG:
             if val is SOME_TEXT and not (lit is None or
                                          isinstance(lit, bool)):
                 return None       # some text: equal to this one or not
+            if isinstance(val, _Learnt):
+                if lit is None and isinstance(op, (ast.Is, ast.IsNot,
+                                                   ast.Eq, ast.NotEq)) \
+                        and val.truth:
+                    return isinstance(op, (ast.IsNot, ast.NotEq))
+                return None
             if isinstance(op, ast.Is):
                 return (val is lit) if lit is None or isinstance(
                     lit, bool) else None
@@ -679,18 +732,33 @@ class CFG:
             else:
                 envt2 = envt
             succs = self.succ[a]
+            learnt = {}
             if n.kind == 'test':
                 d = self._decide(n.ast, env)
                 if d is not None:
                     keep = set(self.branch(n, d))
                     succs = [b for b in succs if b in keep or
                              (a, b) in self.exc_edges]
+                else:
+                    t, pol = n.ast, True
+                    while isinstance(t, ast.UnaryOp) and \
+                            isinstance(t.op, ast.Not):
+                        t, pol = t.operand, not pol
+                    if isinstance(t, ast.Name) and \
+                            t.id in getattr(self, '_learn', ()):
+                        for val in (True, False):
+                            e2 = dict(env)
+                            e2[t.id] = ('c', TRUTHY if val == pol else FALSY)
+                            et = tuple(sorted(e2.items(),
+                                              key=lambda kv: kv[0]))
+                            for b in self.branch(n, val):
+                                learnt[b] = et
             for b in succs:
                 if b in gates:
                     continue
                 if not use_exc and (a, b) in self.exc_edges:
                     continue
-                s2 = (b, envt2)
+                s2 = (b, learnt.get(b, envt2))
                 if s2 in prev:
                     continue
                 prev[s2] = state
